@@ -3,7 +3,18 @@
 package eni
 
 import (
+	"context"
+	"sync"
+	"time"
+
 	"k8s.io/apimachinery/pkg/util/cache"
+	"k8s.io/apimachinery/pkg/util/wait"
+	"sigs.k8s.io/controller-runtime/pkg/client"
+
+	networkv1beta1 "github.com/AliyunContainerService/terway/pkg/apis/network.alibabacloud.com/v1beta1"
+	"github.com/AliyunContainerService/terway/types/daemon"
+
+	"verif/sim/simrt"
 )
 
 // Accessors for the verification harness. No logic.
@@ -27,4 +38,34 @@ func (r *Trunk) SimLocal() *Local { return r.local }
 // ResetGlobalsForSim resets package-level state between simulated runs.
 func ResetGlobalsForSim() {
 	invalidIPCache = cache.NewLRUExpireCache(100)
+}
+
+// SimCRDV2 is a CRDV2 whose Run starts the two periodic loops without a controller-runtime
+// manager (the manager only provides the cached client, which the harness injects).
+type SimCRDV2 struct{ *CRDV2 }
+
+// NewCRDV2ForSim builds the CRD-mode interface over an injected client.
+func NewCRDV2ForSim(c client.Client, nodeName string) *SimCRDV2 {
+	return &SimCRDV2{&CRDV2{
+		scheme:      c.Scheme(),
+		client:      c,
+		nodeName:    nodeName,
+		deletedPods: make(map[string]*networkv1beta1.RuntimePodStatus),
+	}}
+}
+
+// Run is the tail of (*CRDV2).Run: the same two loops with the same periods.
+func (s *SimCRDV2) Run(ctx context.Context, podResources []daemon.PodResources, wg *sync.WaitGroup) error {
+	r := s.CRDV2
+	simrt.Go(func() {
+		wait.UntilWithContext(ctx, func(ctx context.Context) {
+			_ = r.syncNodeRuntime(ctx)
+		}, 3*time.Second)
+	})
+	simrt.Go(func() {
+		wait.UntilWithContext(ctx, func(ctx context.Context) {
+			_ = r.syncDeletedPods(ctx)
+		}, 5*time.Minute)
+	})
+	return nil
 }
